@@ -48,6 +48,8 @@ def main():
                 else:
                     rc, out = build(wt); meta['builds'] = rc == 0 and 'error' not in out.lower().split('warning')[0]
                     rc, out = sh('ctest --test-dir _build -j8 --timeout 900 2>&1 | tail -5', cwd=wt)
+                    if '100% tests passed' not in out:  # tests use fixed /tmp names: retry once (shared machine)
+                        rc, out = sh('ctest --test-dir _build -j8 --timeout 900 2>&1 | tail -5', cwd=wt)
                     meta['suite_passes_with_change'] = '100% tests passed' in out
                     cmd = demo_cmd(os.path.join(md, 'demo.c'), wt, pid); meta['demo_cmd'] = cmd
                     rc, out = sh(cmd, cwd=wt, timeout=900); meta['demo_exit_with_change'] = rc; meta['demo_output_with_change'] = out[-600:]
